@@ -322,6 +322,7 @@ def r12_s(ctx):
         ctx.include(fn, 'R12.S')
     from . import c13
     ctx.include(c13.r13_6, 'R12.S')  # the unchecked iterators agree with the checked ones: escape carry across blocks
+    ctx.include(c13.r13_6c, 'R12.S')  # ... and the escape step of a block is skipped only when it cannot matter
 
 
 RULES = [("R12.1", r12_1), ("R12.2", r12_2), ("R12.3", r12_3), ("R12.4", r12_4), ("R12.5", r12_5), ("R12.6", r12_6), ("R12.7", r12_7), ("R12.8", r12_8), ("R12.S", r12_s)]
